@@ -55,7 +55,6 @@ type msgWriter struct {
 
 	mu      *mu
 	writeMu *mu
-	closed  bool
 
 	ctx    context.Context
 	opcode opcode
@@ -63,6 +62,16 @@ type msgWriter struct {
 
 	trimWriter  *trimLastFourBytesWriter
 	flateWriter *flate.Writer
+}
+
+// msgWriteCloser is the io.WriteCloser of a single message. The connection has
+// one msgWriter that is reused for every message, so the fact that a message has
+// been closed must live here: a closed writer stays closed when the next message
+// is begun.
+type msgWriteCloser struct {
+	mw *msgWriter
+	// closed is guarded by mw.writeMu.
+	closed bool
 }
 
 func newMsgWriter(c *Conn) *msgWriter {
@@ -99,18 +108,22 @@ func (c *Conn) writer(ctx context.Context, typ MessageType) (io.WriteCloser, err
 	if err != nil {
 		return nil, err
 	}
-	return c.msgWriter, nil
+	return &msgWriteCloser{mw: c.msgWriter}, nil
 }
 
 func (c *Conn) write(ctx context.Context, typ MessageType, p []byte) (int, error) {
+	if !c.flate() {
+		err := c.msgWriter.reset(ctx, typ)
+		if err != nil {
+			return 0, err
+		}
+		defer c.msgWriter.mu.unlock()
+		return c.writeFrame(ctx, true, false, c.msgWriter.opcode, p)
+	}
+
 	mw, err := c.writer(ctx, typ)
 	if err != nil {
 		return 0, err
-	}
-
-	if !c.flate() {
-		defer c.msgWriter.mu.unlock()
-		return c.writeFrame(ctx, true, false, c.msgWriter.opcode, p)
 	}
 
 	n, err := mw.Write(p)
@@ -131,7 +144,6 @@ func (mw *msgWriter) reset(ctx context.Context, typ MessageType) error {
 	mw.ctx = ctx
 	mw.opcode = opcode(typ)
 	mw.flate = false
-	mw.closed = false
 
 	mw.trimWriter.reset()
 
@@ -146,14 +158,15 @@ func (mw *msgWriter) putFlateWriter() {
 }
 
 // Write writes the given bytes to the WebSocket connection.
-func (mw *msgWriter) Write(p []byte) (_ int, err error) {
+func (w *msgWriteCloser) Write(p []byte) (_ int, err error) {
+	mw := w.mw
 	err = mw.writeMu.lock(mw.ctx)
 	if err != nil {
 		return 0, fmt.Errorf("failed to write: %w", err)
 	}
 	defer mw.writeMu.unlock()
 
-	if mw.closed {
+	if w.closed {
 		return 0, errors.New("cannot use closed writer")
 	}
 
@@ -188,19 +201,20 @@ func (mw *msgWriter) write(p []byte) (int, error) {
 }
 
 // Close flushes the frame to the connection.
-func (mw *msgWriter) Close() (err error) {
+func (w *msgWriteCloser) Close() (err error) {
 	defer errd.Wrap(&err, "failed to close writer")
 
+	mw := w.mw
 	err = mw.writeMu.lock(mw.ctx)
 	if err != nil {
 		return err
 	}
 	defer mw.writeMu.unlock()
 
-	if mw.closed {
+	if w.closed {
 		return errors.New("writer already closed")
 	}
-	mw.closed = true
+	w.closed = true
 
 	if mw.flate {
 		err = mw.flateWriter.Flush()
